@@ -18,6 +18,7 @@ int e1_explore(e1_spec_t *s);
 typedef struct {
 	const char *harness; const void *param; size_t nparam; int nevents; int max_depth; const char *label;
 	const char *(*evname)(int ev);
+	void (*on_result)(const run_res_t *r, const uint8_t *hist, int len, const void *job, size_t jn, const char *human);   /* optional: parent-side cross-history oracles */
 	long states, transitions, execs; int depth_completed; int exhaustive; long states_by_depth[16];
 } e2_spec_t;
 int e2_explore(e2_spec_t *s);
